@@ -33,9 +33,7 @@ import (
 )
 
 func main() {
-	combos := hist.Combos()
 	ops := hist.Ops()
-	perCombo := int64(1 + len(ops))
 	if pf := os.Getenv("C13_PROF"); pf != "" {
 		f, _ := os.Create(pf)
 		pprof.StartCPUProfile(f)
@@ -52,11 +50,12 @@ func main() {
 		QuickDeadline: 240e9, ThoroughDeadline: 1500e9, CaseTimeout: 900e9, Chunk: 1,
 		WorkerEnv: []string{"GOMAXPROCS=2", "GOGC=200"},
 		Build: func(tier string) (kit.Space, string) {
+			combos := hist.Combos(tier)
 			opt := hist.Options{Depth: 2, Unchanged: true, MergedPairs: 1}
 			if tier == "thorough" {
 				opt = hist.Options{Depth: 3, Unchanged: true, MergedPairs: 3}
 			}
-			n := int64(len(combos)) * perCombo
+			n := int64(len(combos)) * int64(1+len(ops))
 			return kit.FuncSpace{N: n, F: func(i int64) kit.Result {
 				var r kit.Result
 				// seed states first (simplest), then first-op cases
@@ -83,7 +82,7 @@ func main() {
 						"alphabet": len(ops), "merged_changes": len(hist.MergedMenu(opt.MergedPairs))}
 				}
 				return r
-			}}, fmt.Sprintf("%d world kinds x seeds (3 kinds x %d seeds); histories of <= %d accepted ops over an alphabet of %d AddFeature ops; at every state %d AddFeature attempts + %d MergedChange attempts",
+			}}, fmt.Sprintf("%d world kind x seed combinations (3 kinds, %d seeds); histories of <= %d accepted ops over an alphabet of %d AddFeature ops; at every state %d AddFeature attempts + %d MergedChange attempts",
 				len(combos), len(hist.Seeds()), opt.Depth, len(ops), len(ops), len(hist.MergedMenu(opt.MergedPairs)))
 		},
 	})
